@@ -315,12 +315,13 @@ def main(argv=None):
         st, failures, ctx = C.run_concrete(cd, assign)
         import re
         short_cl = re.sub(r"\[\d+\]$", "", clause[len(cd.full) + 1:])
-        reproduced = st in ("fail", "error") and (short_cl in failures or o.kind in ("safety", "inv", "lemma") or short_cl.startswith("noexcept") or any(f.startswith("exception") for f in failures))
+        harness_exc = st == "error" and not getattr(ctx, "exc_in_repo", False)
+        reproduced = not harness_exc and st in ("fail", "error") and (short_cl in failures or o.kind in ("safety", "inv", "lemma") or short_cl.startswith("noexcept") or any(f.startswith("exception") for f in failures))
         if not reproduced:
             # bounded search for a real failing input of the same clause
             for a2 in itertools.islice(grid_cases(cd, "thorough", seed), 4000):
                 st2, f2, ctx2 = C.run_concrete(cd, a2)
-                if st2 in ("fail", "error") and (short_cl in f2 or o.kind != "post"):
+                if st2 in ("fail", "error") and (short_cl in f2 or o.kind != "post") and not (st2 == "error" and not getattr(ctx2, "exc_in_repo", False)):
                     assign, failures, reproduced, ctx = dict(ctx2.used), f2, True, ctx2
                     break
         payload = {"property": pid, "obligation": o.name, "clause": clause, "kind": o.kind, "contract": cd.full,
@@ -378,6 +379,12 @@ def main(argv=None):
                 checker_errors.append(f"{cd.full}: bounded stand-in evaluated no non-trivial case")
             for fl in st["fails"]:
                 for lab in fl["failures"]:
+                    if lab.startswith("exception") and lab.endswith("[raised in the harness]"):
+                        # the contract / harness itself failed on this input: says nothing about the code under verification
+                        msg = f"{cd.full}: harness exception on {fl['assign']}: {lab[:300]}"
+                        if not any(m.startswith(f"{cd.full}: harness exception") for m in checker_errors):
+                            checker_errors.append(msg)
+                        continue
                     clause = f"{cd.full}.{lab.split(':')[0] if lab.startswith('exception') else lab}"
                     hit = next((f for f in known["findings"] if finding_matches(f, pid, clause, fl["assign"])), None)
                     if hit:
